@@ -74,6 +74,19 @@ def programs(tier):
         decls += f"def fn{i:02}(x: int = {i}) -> int:\n    return x + {i}\n\n\n"
     body = "".join(f"    println(fn{i:02}() + Cl{i:02}(v={i}).m{i:02}() + Mo{i:02}(a{i:02}={i}).a{i:02})\n" for i in range(0, 30, 3))
     P["many_declarations_30"] = {"main.incn": decls + "def main() -> None:\n" + body}
+    # a type imported from a Rust crate (unknown to the compiler) constructed with several named arguments, in the entry file
+    # and in a dependency module
+    P["rust_type_named_construction"] = {
+        "main.incn": "from rust::chrono import NaiveDate\nfrom datelib import make\n\n\ndef main() -> None:\n    d = NaiveDate(year=2024, month=1, day=2, hour=3, minute=4, second=5)\n    e = make(7)\n    println(1)\n",
+        "datelib.incn": "from rust::chrono import NaiveDate\n\n\npub def make(n: int) -> NaiveDate:\n    return NaiveDate(second=n, minute=n, hour=n, day=n, month=n, year=n)\n",
+    }
+    # a dependency module that constructs models / classes it imports from another dependency module (named arguments in
+    # several orders, defaults omitted, enum variants): the text of every generated module file must be stable
+    P["dependency_constructs_imported_types"] = {
+        "main.incn": "from geometry import origin_shift, square, total, kind_of, corners\nfrom shapes import Kind\n\n\ndef main() -> None:\n    println(total(square(3), origin_shift(1)))\n    println(len(corners(2)))\n    match kind_of(square(2)):\n        case Kind.Flat:\n            println(\"flat\")\n        case Kind.Tall(h):\n            println(h)\n",
+        "geometry.incn": "from shapes import Point, Rect, Kind\n\n\npub def origin_shift(d: int) -> Point:\n    return Point(y=d + 1, x=d, w=d * 2, v=0)\n\n\npub def corners(n: int) -> List[Point]:\n    return [Point(x=0, y=0, v=1, w=n), Point(w=n, v=2, y=n, x=0), Point(v=3, w=0, x=n, y=n, z=n)]\n\n\npub def square(n: int) -> Rect:\n    return Rect(h=n, w=n, tag=\"sq\", depth=n)\n\n\npub def kind_of(r: Rect) -> Kind:\n    if r.h > r.w:\n        return Kind.Tall(r.h)\n    return Kind.Flat\n\n\npub def total(r: Rect, p: Point) -> int:\n    return r.area() + p.x + p.y + p.z\n",
+        "shapes.incn": "pub model Point:\n    x: int\n    y: int\n    v: int\n    w: int\n    z: int = 9\n\n\npub enum Kind:\n    Flat\n    Tall(int)\n\n\npub class Rect:\n    w: int\n    h: int\n    depth: int\n    tag: str\n    label: str = \"r\"\n\n    def area(self) -> int:\n        return self.w * self.h\n",
+    }
     for name in ("multifile", "nested_project"):
         root = os.path.join(common.REPO, "examples", "advanced", name)
         files = {}
@@ -213,7 +226,7 @@ def run(tier):
         "evaluations": n_eval,
         "distinct_nontrivial": distinct,
         "rule": f"{len(P)} programs ({sum(1 for f in P.values() if '__light__' in f)} of them the C15 project-generation cases, compared on the generated files under 4 (thorough 16) hash seeds; the others: several rust:: imports, derives/traits/models, diagnostics with several missing fields / methods, 3-level nested multi-file project, private "
-        f"import hint, unformatted source, consts and collections, two scaling programs (60-link str and int const chains with uses at every depth; 30 each of traits, derived models, enums, classes with two traits, newtypes, functions with defaults), the repository's multifile examples, a 60-unit pack of the semantic corpus) x {len(cfgs)} configurations "
+        f"import hint, unformatted source, consts and collections, a dependency module constructing types imported from another dependency module, a Rust-imported type constructed with six named arguments, two scaling programs (60-link str and int const chains with uses at every depth; 30 each of traits, derived models, enums, classes with two traits, newtypes, functions with defaults), the repository's multifile examples, a 60-unit pack of the semantic corpus) x {len(cfgs)} configurations "
         "(hash seed x cwd/relative-vs-absolute path x scrubbed/noisy environment); observables: build transcript, every generated .rs/.toml file, --check, --emit-rust, fmt --diff "
         "text; evaluations = (program, configuration, observable) triples compared; non-trivial = (program, observable) pairs identical across all configurations",
         "samples": [{"program": "three_rust_crates", "config": list(cfgs[0])}, {"program": "nested_three_levels", "config": list(cfgs[len(cfgs) // 2])}, {"program": "semantic_corpus_pack", "config": list(cfgs[-1])}],
